@@ -49,6 +49,14 @@ func kindComplement(c *Ctx, rule string) {
 		return
 	}
 	skippedBy := map[string][]string{} // const name -> loops skipping it
+	addOnce := func(k, fn string) {
+		for _, x := range skippedBy[k] {
+			if x == fn {
+				return
+			}
+		}
+		skippedBy[k] = append(skippedBy[k], fn)
+	}
 	for _, fname := range []string{"serializers.(*SPDX23).buildPackages", "serializers.buildFiles"} {
 		d := c.decl(rule, fname)
 		if d == nil {
@@ -73,9 +81,11 @@ func kindComplement(c *Ctx, rule string) {
 							if v, ok := constOf(d.pkg, side); ok && v.isInt() {
 								for _, k := range enumConsts(nt) {
 									eq := sameValue(constVal(k), v)
-									skipsIt := eq == ((be.Op == token.EQL) == (g.class == "kind-filter"))
-									if skipsIt {
-										skippedBy[k.Name()] = append(skippedBy[k.Name()], fname)
+									// the atom `Type op K` holds (or not) on the skip path; constant k is
+									// skipped when evaluating the atom for k gives that truth value
+									atomForK := eq == (be.Op == token.EQL)
+									if atomForK == g.holds {
+										addOnce(k.Name(), fname)
 									}
 								}
 							}
